@@ -167,6 +167,15 @@ class C13(Prop):
         if fields - known_fields:
             raise X.TieBroken("harness:new_interactive", "new_interactive() initialises field(s) %s that harness/c13/c13.c make_user() "
                               "does not know (0xA5-filled there): add them to make_user()" % sorted(fields - known_fields))
+        # the harness tells add_message()'s own snoop forwarding (output side) from get_user_data()'s by the NEOLITH_VERIF
+        # hook call (phase 1) in front of it: every receive_snoop() call site but the input-side one must have it
+        sites = [(m.start(), m.group(1)) for m in re.finditer(r"receive_snoop \((\w+), ip->snoop_by->ob\);", src)]
+        if [a for _, a in sites].count("buf") != 1:
+            raise X.TieBroken("hook:output snoop", "expected exactly one input-side `receive_snoop (buf, ip->snoop_by->ob)` in src/comm.c, found call sites %r" % ([a for _, a in sites],))
+        for pos, arg in sites:
+            if arg != "buf" and not re.search(r"verif_add_message_hook \(who, %s, [01], 1\);" % re.escape(arg), src[max(0, pos - 500):pos]):
+                raise X.TieBroken("hook:output snoop", "the receive_snoop (%s, ..) call of src/comm.c is not announced by verif_add_message_hook (.., 1): "
+                                  "harness/c13/c13.c would take it for the input-side snoop callback" % arg)
         wsrc = open(os.path.join(E.REPO, "lib/async/console_worker.c"), errors="replace").read()
         ms = re.findall(r"read\(STDIN_FILENO, line_buffer, CONSOLE_MAX_LINE - (\d+)\)", wsrc)
         if len(ms) != 1 or wsrc.count("char line_buffer[CONSOLE_MAX_LINE];") < 1 or wsrc.count("line_buffer[bytes_read] = '\\0';") != 1 \
